@@ -14,7 +14,9 @@ for i in ids:
     if i in rows:
         meta = json.load(open("/verif/seeded/%s/meta.json" % i))
         note = ""
-        if meta["property"] not in [c for c in meta["caught_by"]][:1]:
+        if not meta["caught_by"]:
+            note = "   (EQUIVALENT: " + str(meta.get("note", meta.get("needs_to_manifest", "")))[:160] + ")"
+        elif meta["property"] != meta["caught_by"][0]:
             note = "   (breaks a clause owned by %s)" % meta["caught_by"][0]
         out.append("%s %s%s" % (i, rows[i], note))
     else:
